@@ -620,5 +620,19 @@ func (u *Universe) wfAnyDef() string {
 	if l := byRepr["slice"]; len(l) > 0 {
 		cs = append(cs, "(=> "+or(l...)+" (and (= (anum a) 0) (= (astr a) \"\") (>= (sptr (asl a)) 0) (>= (slen (asl a)) 0) (<= (slen (asl a)) (scap (asl a))) (<= (scap (asl a)) 9223372036854775807) (=> (= (sptr (asl a)) 0) (= (scap (asl a)) 0))))")
 	}
-	return "(define-fun wf_any ((a Any)) Bool (and " + strings.Join(cs, " ") + "))\n"
+	// any_ref: the highest address an interface value refers to (0 if none)
+	var refTags []string
+	for _, tg := range tags {
+		t := u.tagTypes[tg]
+		switch types.Unalias(t).Underlying().(type) {
+		case *types.Pointer, *types.Map:
+			refTags = append(refTags, fmt.Sprintf("(= (atag a) %d)", tg))
+		default:
+			if isTime(t) || (u.sortOf(t) != "Int" && u.sortOf(t) != "Bool" && u.sortOf(t) != "String" && u.sortOf(t) != "Slice" && u.sortOf(t) != "Real") {
+				refTags = append(refTags, fmt.Sprintf("(= (atag a) %d)", tg))
+			}
+		}
+	}
+	refDef := "(define-fun any_ref ((a Any)) Int (ite " + or(refTags...) + " (anum a) (+ (sptr (asl a)) (scap (asl a)))))\n"
+	return "(define-fun wf_any ((a Any)) Bool (and " + strings.Join(cs, " ") + "))\n" + refDef
 }
